@@ -218,7 +218,13 @@ def check_typestate(ctx, P):
         for b, c in call_sites(f, lambda c: callee_is(c, "fdl::active::State::transition_pass_token")):
             tb = tb or TermBuilder(f, P)
             dg = tb.joperand(c["args"][1])
-            if dg[0] == "agg" and dg[2] == "Yes":
+            may_yes = dg[0] == "agg" and dg[2] == "Yes"
+            if dg[0] != "agg":
+                # the argument is a variable: `Yes` on some path class unless every class fixes it to `No`
+                gg = GuardAnalysis(f, P)
+                vs_all = [fs.get(("discr", strip_refs(dg))) for fs in gg.at(b)]
+                may_yes = not vs_all or any(v is None or v != ("in", frozenset(["No"])) for v in vs_all)
+            if may_yes:
                 nyes += 1
                 S = ip.facts_at(f.name, b)
                 st = states_of(S)
